@@ -16,13 +16,15 @@ def exc_enum(e):
 ZERO_SHAPE_KEY = 'C14/perdomain-nested-perposition/zero-shape'
 
 
-def classify(spec, shape_failure=False):
+def classify(spec, shape_failure=False, nonfinite=False):
   b = ml.base_of(spec)
   if shape_failure and spec[0] == 'pd' and spec[1][0] == 'pd' and ml.is_per_position(spec):
     # PerDomainMetric over a base whose zero() has a lower rank than its statistics (the scalar zero of
     # per_position metrics, broadcast to (D,) by the inner PerDomainMetric): trailing-axis broadcasting
     # of that zero fails or produces a wrong shape.  Same root cause as C05/perdomain-perposition.
     return ZERO_SHAPE_KEY
+  if nonfinite:
+    return 'C14/cross-entropy/nonfinite-logits'
   if b[0] in ('topk', 'sttopk') and b[1] < 0:
     return 'C14/topk/negative-k'
   if b[0] == 'oov' and len(b[1]) != 1:
@@ -35,14 +37,15 @@ class C14(core.Property):
   RULE = ('cases = (metric class + constructor arguments, one example/prediction); generated per metric class '
           'over the branch conditions (ties between class scores, masked target values, fully masked '
           'sequences, k < 1 / k >= classes, logit masks with -inf/+inf, per_position, PerDomain wrapping, '
-          'target_key/pred_key); non-trivial = the reference statistic has a non-zero entry or the case is a '
+          'target_key/pred_key, prediction dtype float32/int32/int8/int64, -inf and extreme finite logits for the '
+          'loss-valued metrics); non-trivial = the reference statistic has a non-zero entry or the case is a '
           'fully masked sequence; distinct by case digest')
   TRUSTED = ['the reference definitions in Model/Metrics.lean transcribe the docstrings of '
              'fedjax/core/metrics.py (also re-stated independently in harness/vlib/metricslib.py)',
              'log_softmax values enter the Lean model as data; the Python oracle recomputes them in float64']
   ASSUMPTIONS = ['targets lie in [0, num_classes); class scores are finite (integers here, exact in float32); '
                  'logits_mask entries are finite or +-inf']
-  QUICK_BUDGET_S = 110
+  QUICK_BUDGET_S = 140
   THOROUGH_BUDGET_S = 560
 
   def setup(self, ctx):
@@ -89,6 +92,7 @@ class C14(core.Property):
     per = {'quick': 150, 'thorough': 2400, 'search': 400}[tier]
     if tier == 'thorough':
       yield from self._exhaustive()
+    yield from self._targeted_cases(rng)
     names = ml.BASE_NAMES + ['pd']
     for i in range(per * len(names)):
       name = names[i % len(names)]
@@ -96,12 +100,49 @@ class C14(core.Property):
       if i % 40 == 7:
         yield self._ident_case(rng)
 
+  def _targeted_cases(self, rng):
+    """A few cases per run aimed at two branch combinations that random draws reach only late:
+    PerDomainMetric over a loss-valued base whose statistic is +inf for the example (the rows of the other
+    domains must be exactly the zero statistic), and integer-typed predictions with a -inf logits mask on a
+    class whose raw score is negative or zero."""
+    for base in (['ce'], ['stce', [], True], ['stce', [0], False], ['sce', []]):
+      for _ in range(2):
+        C, L, D = rng.choice([2, 3, 4]), rng.choice([1, 2, 3]), rng.choice([2, 3, 4])
+        spec = ['pd', base, D]
+        ex = ml.gen_example(rng, spec, L, C, D, extreme=True)
+        t0 = rng.randrange(1, C) if base[0] != 'ce' and 0 in base[1] else rng.randrange(C)
+        row = [rng.randint(-3, 3) for _ in range(C)]
+        if rng.random() < 0.5:
+          row[t0] = 'ninf'                                  # target class masked out by the model: loss = +inf
+        else:
+          row = [ml.BIGS[0]] * C
+          row[t0] = -ml.BIGS[0]                             # extreme finite logits: the loss overflows float32
+        ex['t'][0], ex['s'][0] = t0, row
+        yield {'kind': 'ex', 'spec': spec, 'ex': ex, 'tkey': 'y', 'pkey': None}
+    for name in ('stacc', 'sttopk'):
+      for pdtype in ('int32', 'int8', 'int64'):
+        C, L = rng.choice([3, 4]), rng.choice([1, 2, 3])
+        j = rng.randrange(C)
+        lm = [0] * C
+        lm[j] = 'ninf'
+        if rng.random() < 0.5:
+          lm[(j + 1) % C] = 'pinf' if rng.random() < 0.5 else 'ninf'
+        spec = ['stacc', [], lm, rng.random() < 0.5] if name == 'stacc' else ['sttopk', rng.choice([1, 2]), [], lm, rng.random() < 0.5]
+        ex = ml.gen_example(rng, spec, L, C, 1, small=True)
+        for i in range(L):
+          ex['s'][i][j] = rng.choice([-3, -1, 0, 0])        # negative / zero raw score on the masked class
+          if ex['t'][i] == j:
+            ex['t'][i] = (j + 2) % C
+        yield {'kind': 'ex', 'spec': spec, 'ex': ex, 'tkey': 'y', 'pkey': None, 'pdtype': pdtype}
+
   def _random_case(self, rng, name):
     C = rng.choice([1, 2, 3, 3, 4, 5, 6])
     L = rng.choice([1, 2, 3, 4, 5, 6])
     D = 1
     if name == 'pd':
-      base = ml.gen_base_spec(rng, rng.choice(ml.BASE_NAMES), C)
+      # a third of the PerDomain cases wrap a loss-valued base (whose statistic can be non-finite)
+      bname = rng.choice(['ce', 'stce', 'sce']) if rng.random() < 0.33 else rng.choice(ml.BASE_NAMES)
+      base = ml.gen_base_spec(rng, bname, C)
       D = rng.randrange(1, 5)
       spec = ['pd', base, D]
       if rng.random() < 0.15:
@@ -110,13 +151,21 @@ class C14(core.Property):
         D = min(D, D2)
     else:
       spec = ml.gen_base_spec(rng, name, C)
-    ex = ml.gen_example(rng, spec, L, C, D)
+    # prediction dtype: fedjax's docstrings/tests also feed integer arrays; extreme / -inf logits (float only)
+    pdtype = 'float32'
+    if ml.base_of(spec)[0] in ml.NEEDS_PRED and rng.random() < 0.4:
+      pdtype = rng.choice(['int32', 'int8', 'int64'])
+    extreme = pdtype == 'float32' and ml.is_loss(spec) and rng.random() < (0.7 if name == 'pd' else 0.45)
+    ex = ml.gen_example(rng, spec, L, C, D, small=(pdtype == 'int8'), extreme=extreme)
     if name == 'cm' and rng.random() < 0.1:
       spec = ['cm', C + rng.choice([-1, 1]) if C > 1 else C + 1]      # documented ValueError
       ex['t'] = [0]
     tkey = rng.choice(['y', 'y', 'tgt'])
     pkey = rng.choice([None, None, 'p'])
-    return {'kind': 'ex', 'spec': spec, 'ex': ex, 'tkey': tkey, 'pkey': pkey}
+    case = {'kind': 'ex', 'spec': spec, 'ex': ex, 'tkey': tkey, 'pkey': pkey}
+    if pdtype != 'float32':
+      case['pdtype'] = pdtype
+    return case
 
   def _ident_case(self, rng):
     C = rng.randrange(1, 6)
@@ -159,6 +208,14 @@ class C14(core.Property):
     spec, ex = case['spec'], case['ex']
     if case['tkey'] != 'y' or case['pkey'] is not None:
       yield {**case, 'tkey': 'y', 'pkey': None}
+    if case.get('pdtype'):
+      yield {k: v for k, v in case.items() if k != 'pdtype'}
+    for i, row in enumerate(ex['s']):
+      for j, v in enumerate(row):
+        if not ml.is_moderate(v):
+          ns = [list(r) for r in ex['s']]
+          ns[i][j] = 0
+          yield {**case, 'ex': {**ex, 's': ns}}
     if spec[0] == 'pd':
       yield {**case, 'spec': spec[1]}
     n = len(ex['t'])
@@ -168,7 +225,8 @@ class C14(core.Property):
     if ml.base_of(spec)[0] not in ml.NEEDS_PRED and any(v for row in ex['s'] for v in row):
       yield {**case, 'ex': {**ex, 's': [[0] for _ in ex['s']]}}      # prediction is unused
     # rank-transform the scores (keeps ties and order)
-    small = [[sorted(set(row)).index(v) for v in row] for row in ex['s']]
+    small = [[sorted(set(row)).index(v) for v in row] if all(ml.is_moderate(v) for v in row) else list(row)
+             for row in ex['s']]
     if small != ex['s']:
       yield {**case, 'ex': {**ex, 's': small}}
     b = ml.base_of(spec)
@@ -206,7 +264,8 @@ class C14(core.Property):
 
     def run(sp):
       metric = ml.build_metric(M, sp, tkey, pkey)
-      return metric.evaluate_example(ml.real_example(jnp, sp, ex, tkey), ml.real_prediction(jnp, sp, ex, pkey))
+      return metric.evaluate_example(ml.real_example(jnp, sp, ex, tkey),
+                                     ml.real_prediction(jnp, sp, ex, pkey, case.get('pdtype', 'float32')))
 
     b = ml.base_of(spec)
     expect_err = b[0] == 'cm' and b[1] != len(ex['s'][0])
@@ -239,7 +298,14 @@ class C14(core.Property):
     kind, ref = ml.ref_stat(spec, ex)
     shape = ml.stat_shape(spec, L)
     loss = ml.is_loss(spec)
-    scale = 1.0 + sum(abs(v) for row in ex['s'] for v in row) if loss else 0.0
+    scale = 1.0 + sum(abs(v) for row in ex['s'] for v in row if ml.is_moderate(v)) if loss else 0.0
+    has_extreme = any(not ml.is_moderate(v) for row in ex['s'] for v in row)
+
+    def same(g, r):
+      """impl value vs reference: equal (covers +-inf), or both finite and within the float32 tolerance"""
+      if g == r:
+        return True
+      return bool(loss and np.isfinite(g) and np.isfinite(r) and ml.close(g, r, scale))
     if impl[0] != kind:
       problems.append(f'{name}: statistic type {impl[0]}, documented {kind}')
     else:
@@ -252,13 +318,13 @@ class C14(core.Property):
         if kind == 'mean':
           got = list(zip(flat[0].tolist(), flat[1].tolist()))
           for i, ((ga, gw), (ra, rw)) in enumerate(zip(got, ref)):
-            if gw != rw or not (ga == ra if not loss else ml.close(ga, ra, scale)):
+            if gw != rw or not same(ga, ra):
               problems.append(f'{name}: entry {i} is (accum={ga}, weight={gw}), definition gives ({ra}, {rw})')
               break
           res = impl_result.reshape(-1).tolist()
           for i, ((ra, rw), r) in enumerate(zip(ref, res)):
             want = ml.safe_div(ra, rw)
-            if not (np.isfinite(r) and ml.close(r, want, scale)):   # a float32 division
+            if not (r == want or (np.isfinite(r) and np.isfinite(want) and ml.close(r, want, scale))):   # an f32 division
               problems.append(f'{name}: result[{i}] = {r}, definition gives {want}')
               break
           detail['impl'] = got
@@ -299,7 +365,13 @@ class C14(core.Property):
         corr.append(f'model size {len(ans[1])} vs impl {len(ia)}')
       else:
         for i, ((ma, mw), a, w) in enumerate(zip(ans[1], ia, iw)):
-          ok = (w == mw) and (a == ma if not loss else ml.close(a, float(ma), scale))
+          if loss and not (np.isfinite(ref[i][0]) and np.isfinite(a)):
+            # the rational reference cannot express a non-finite loss; such an entry was compared with the
+            # Python oracle above (which requires exactly +inf / rejects NaN); weights are still compared
+            ok = (w == mw)
+            ctx.count('nonfinite_entries_oracle_only')
+          else:
+            ok = (w == mw) and (a == ma if not loss else ml.close(a, float(ma), scale))
           if not ok:
             corr.append(f'entry {i}: model ({ma},{mw}) vs impl ({a},{w})')
             break
@@ -319,10 +391,17 @@ class C14(core.Property):
     if b[0] in ('stacc', 'sttopk'):
       lm = b[2] if b[0] == 'stacc' else b[3]
       tags.append('lmask=' + ('none' if lm is None else 'inf' if any(isinstance(x, str) for x in lm) else 'finite'))
+    if case.get('pdtype'):
+      tags.append('pred=' + case['pdtype'])
+    if has_extreme:
+      tags.append('extreme/-inf-logits')
+      if kind == 'mean' and any(not np.isfinite(a) for a, _ in ref):
+        tags.append('nonfinite-statistic')
     nontrivial = ('fully-masked' in tags) or (any(a != 0 or w != 0 for a, w in ref) if kind == 'mean'
                                                 else any(v != 0 for v in ref))
     return Outcome(oracle_fail='; '.join(problems[:3]) or None, corr_fail='; '.join(corr[:3]) or None,
-                   nontrivial=nontrivial, tags=tuple(tags), key=classify(spec, shape_failure), detail=detail)
+                   nontrivial=nontrivial, tags=tuple(tags),
+                   key=classify(spec, shape_failure, nonfinite=bool(loss and has_extreme and problems)), detail=detail)
 
   def _evaluate_ident(self, case, ctx):
     """Confusion-matrix / per-domain identities over a list of scalar examples (real code only)."""
